@@ -33,6 +33,10 @@ type Step struct {
 	AltName string   `json:"alt_name,omitempty"`
 	NoExp   bool     `json:"no_exp,omitempty"` // only compared between the engines
 	Soft    bool     `json:"soft,omitempty"`   // a mismatch is reported but the run continues (read-only probes)
+	// inst: an experimental.ImportResolver is put into the instantiation context; it answers Resolve[name]
+	// (an instance name) and declines (returns nil for) every other import module name
+	Resolver bool              `json:"resolver,omitempty"`
+	Resolve  map[string]string `json:"resolve,omitempty"`
 }
 
 type Scenario struct {
@@ -239,10 +243,21 @@ func (r *engineRun) exec(sc *Scenario, st *Step) (o Obs) {
 			bin, _ = Build(sc.Mods[st.Mod])
 			r.bins[st.Mod] = bin
 		}
+		ctx := r.ctx
+		if st.Resolver {
+			ctx = experimental.WithImportResolver(ctx, func(name string) api.Module {
+				if to, ok := st.Resolve[name]; ok {
+					if mod := r.mods[to]; mod != nil {
+						return mod
+					}
+				}
+				return nil
+			})
+		}
 		if st.ExpErr != "" {
 			// expected to fail: instantiate from bytes, so that nobody (not even this harness) holds the
 			// CompiledModule or anything else of the failed instance afterwards
-			mod, err := r.rt.InstantiateWithConfig(r.ctx, bin, wazero.NewModuleConfig().WithName(st.Inst))
+			mod, err := r.rt.InstantiateWithConfig(ctx, bin, wazero.NewModuleConfig().WithName(st.Inst))
 			if err != nil {
 				return Obs{Err: "instantiate:" + firstLine(err.Error())}
 			}
@@ -258,7 +273,7 @@ func (r *engineRun) exec(sc *Scenario, st *Step) (o Obs) {
 			}
 			r.cms[st.Mod] = cm
 		}
-		mod, err := r.rt.InstantiateModule(r.ctx, cm, wazero.NewModuleConfig().WithName(st.Inst))
+		mod, err := r.rt.InstantiateModule(ctx, cm, wazero.NewModuleConfig().WithName(st.Inst))
 		if err != nil {
 			return Obs{Err: "instantiate:" + firstLine(err.Error())}
 		}
